@@ -169,13 +169,17 @@ def main():
         import gen_fns
         gen_fns.TieError = TieError
         fn = gen_fns.gen_fns(read("src/setu64.rs"), read("src/setu32.rs"))
+        import gen_loops
+        gen_loops.TieError = TieError
+        lp = gen_loops.gen_loops(read("src/setu64.rs"), read("src/setu32.rs"))
     except TieError as e:
         print(f"TIE-BROKEN translator: {e}")
         return 3
     ch1 = write_if_changed(os.path.join(OUT, "Consts.lean"), c)
     ch2 = write_if_changed(os.path.join(OUT, "Fits.lean"), f)
     ch3 = write_if_changed(os.path.join(OUT, "Fns.lean"), fn)
-    print(f"generated Consts.lean ({'changed' if ch1 else 'same'}), Fits.lean ({'changed' if ch2 else 'same'}), Fns.lean ({'changed' if ch3 else 'same'})")
+    ch4 = write_if_changed(os.path.join(OUT, "Loops.lean"), lp)
+    print(f"generated Consts.lean ({'changed' if ch1 else 'same'}), Fits.lean ({'changed' if ch2 else 'same'}), Fns.lean ({'changed' if ch3 else 'same'}), Loops.lean ({'changed' if ch4 else 'same'})")
     return 0
 
 if __name__ == "__main__":
